@@ -71,7 +71,7 @@ type Conn struct {
 // NodeSpec describes one node (leaf, batch or flow).
 type NodeSpec struct {
 	ID   int    `json:"id"`
-	Kind string `json:"kind"` // base plain retry fb retryfb func batch flow zst (pointer to a zero-size type) ovr (embeds BaseNode, overrides the retry getters)
+	Kind string `json:"kind"` // base plain retry fb retryfb func batch flow zst (pointer to a zero-size type) ovr (embeds BaseNode, overrides the retry getters) val (a value-type node; the first one of a scenario is the zero value of its type)
 
 	// func / batch: how each phase function is given: R (Result style), A (Any
 	// style), - (not set). Three characters: prep, exec, post.
@@ -190,7 +190,7 @@ func (n *NodeSpec) configRun(r int) config {
 // retryable: does the framework see retry settings on this kind?
 func (n *NodeSpec) retryable() bool {
 	switch n.Kind {
-	case "plain", "fb", "zst":
+	case "plain", "fb", "zst", "val":
 		return false
 	}
 	return true
@@ -199,7 +199,7 @@ func (n *NodeSpec) retryable() bool {
 // hasFallback: is there a user fallback whose outcome is scripted?
 func (n *NodeSpec) hasFallback() bool {
 	switch n.Kind {
-	case "plain", "retry", "zst":
+	case "plain", "retry", "zst", "val":
 		return false
 	case "fb", "retryfb":
 		return true
